@@ -99,6 +99,26 @@ func main() {
 			os.Exit(2)
 		}
 		props.ProbeArith(p)
+	case "symbols":
+		// regenerate the rename baseline (checker/an/baseline_symbols.json) from the current tree
+		out := "an/baseline_symbols.json"
+		if len(os.Args) > 3 && os.Args[2] == "-o" {
+			out = os.Args[3]
+		}
+		per := map[string][]an.Sym{}
+		for _, cfg := range props.Configs {
+			syms, err := an.LoadSyms("/repo", cfg)
+			if err != nil {
+				fmt.Println(cfg.Name, err)
+				os.Exit(2)
+			}
+			per[cfg.Name] = syms
+			fmt.Println(cfg.Name, len(syms), "symbols")
+		}
+		if err := an.WriteJSON(out, an.MakeBaseline(per)); err != nil {
+			fmt.Println(err)
+			os.Exit(2)
+		}
 	case "whywrites":
 		cmdWhy(os.Args[2:])
 	case "dump":
@@ -162,6 +182,10 @@ func analyse(repo, cfgName, only string) (res an.ConfigResult) {
 		res.Error = err.Error()
 		return
 	}
+	for _, r := range p.Renames {
+		res.Renames = append(res.Renames, r.String())
+	}
+	res.RenameNote = p.RenameNote
 	res.Packages = len(p.Pkgs)
 	res.Functions = len(p.ModFuncs)
 	res.CallgraphNodes = len(p.CallGraph().Nodes)
@@ -332,12 +356,24 @@ func checkOne(repo string, pr *props.Property, tier string) int {
 	var obs, shared []an.Ob
 	pkgs, funcs, cgn, fa := 0, 0, 0, 0
 	var cfgNames []string
+	var renamed []string
+	renamedSeen := map[string]bool{}
 	for _, r := range res {
 		if r.Error != "" {
 			fmt.Printf("ERROR: configuration %s could not be analysed: %s\n", r.Config, r.Error)
 			return 2
 		}
 		cfgNames = append(cfgNames, r.Config)
+		for _, rn := range r.Renames {
+			if !renamedSeen[rn] {
+				renamedSeen[rn] = true
+				renamed = append(renamed, rn)
+				fmt.Printf("NOTE property=%s renamed with respect to the baseline, analysed under the baseline name: %s\n", pr.ID, rn)
+			}
+		}
+		if r.RenameNote != "" {
+			fmt.Printf("NOTE property=%s configuration %s: %s\n", pr.ID, r.Config, r.RenameNote)
+		}
 		for _, o := range r.Obs {
 			if o.Prop == pr.ID {
 				obs = append(obs, o)
@@ -519,6 +555,7 @@ func checkOne(repo string, pr *props.Property, tier string) int {
 			"samples":             samples,
 			"notes":               infos,
 			"configs":             cfgNames,
+			"renamed_symbols":     renamed,
 			"packages":            pkgs,
 			"functions_in_module": funcs,
 			"functions_analysed":  fa,
